@@ -35,6 +35,61 @@ def _wcnt_mon(d):
 _G = {}
 
 
+def _sweep_worker(ys):
+    """converters from a day number estimate the year from the day count: swept over every year of the range"""
+    import core
+    tu = _G["tu"]
+    tabs = {}
+
+    def call(name, *args):
+        fo = fold.Folder(tu.func(name), calls={}, inline=True, max_steps=400000)
+        fo._tabs = tabs
+        return fo.run(list(args))
+    bad = {}
+    n = 0
+    for y in ys:
+        for (m, dd) in ((1, 1), (2, 28), (7, 1), (12, 31)):
+            d = datetime.date(y, m, dd)
+            iy, iw, iwd = d.isocalendar()
+            yday = d.timetuple().tm_yday
+            dz = call("__ymd_to_daisy", {"y": y, "m": m, "d": dd})
+            for name, fields, exp in (("__daisy_to_ymd", ("y", "m", "d"), (y, m, dd)), ("__daisy_to_yd", ("y", "d"), (y, yday)),
+                                      ("__daisy_to_ywd", ("y", "c", "w"), (iy, iw, iwd)), ("__daisy_to_ymcw", ("y", "m", "c", "w"), (y, m, _wcnt_mon(d), iwd))):
+                r = call(name, dz)
+                n += 1
+                got = tuple(r.get(f_) for f_ in fields) if isinstance(r, dict) else None
+                if got != exp:
+                    bad.setdefault(name, []).append((d.isoformat(), "from the day number", str(got), str(exp)))
+    return n, bad
+
+
+def run_sweep(R, tu, rule, lo=1602, hi=4093, jobs=12):
+    """hi = 4093: the last 606 days of the range are the known finding D21 (RF2-range)"""
+    import multiprocessing as mp
+    _G.update(tu=tu)
+    years = list(range(lo, hi + 1))
+    chunks = [years[i::jobs] for i in range(jobs)]
+    ctx = mp.get_context("fork")
+    with ctx.Pool(jobs) as pool:
+        parts = pool.map(_sweep_worker, chunks)
+    n = 0
+    bad = {}
+    for k, b in parts:
+        n += k
+        for name, lst in b.items():
+            bad.setdefault(name, []).extend(lst)
+    for name in ("__daisy_to_ymd", "__daisy_to_yd", "__daisy_to_ywd", "__daisy_to_ymcw"):
+        f = tu.func(name)
+        R.saw(f)
+        if name in bad:
+            day, what, got, exp = sorted(bad[name])[0]
+            R.finding(rule, f, "%s swept over the years %d..%d" % (name, lo, hi), "%d of the swept days convert wrongly from their day number; first: "
+                      "%s gives %s, the calendar says %s" % (len(bad[name]), day, got, exp))
+        else:
+            R.ob(rule, "%s: right on 1 January, 28 February, 1 July and 31 December of every year %d..%d" % (name, lo, hi), True)
+    return n
+
+
 def _worker(ys):
     import core
     R2 = core.Report("worker")
